@@ -2634,7 +2634,10 @@ private:
       }
       if (_config.serverTls.verifyPeer)
       {
-        ::SSL_CTX_set_verify(_sslSrv, SSL_VERIFY_PEER, nullptr);
+        // A server that verifies peers REQUIRES a client certificate: with
+        // SSL_VERIFY_PEER alone OpenSSL only checks a certificate if the client
+        // chooses to send one, so a client presenting none would be admitted.
+        ::SSL_CTX_set_verify(_sslSrv, SSL_VERIFY_PEER | SSL_VERIFY_FAIL_IF_NO_PEER_CERT, nullptr);
         if (!_config.serverTls.caFile.empty() || !_config.serverTls.caPath.empty())
         {
           if (::SSL_CTX_load_verify_locations(_sslSrv,
